@@ -2,6 +2,7 @@
 Tie: real `murmur3_32` vs the Lean model `murmurPy` (correspondence) and vs the Lean *specification*
 `murmurRef` on byte strings (monitor, independent of the model)."""
 import itertools
+import os
 import subprocess
 import sys
 
@@ -106,7 +107,8 @@ def main(argv):
             "print([murmur3_32(''.join(map(chr,d)),s) for d,s in %r])" % (REPO, probe))
     here = repr([murmur3_32("".join(map(chr, d)), s) for d, s in probe])
     for hs in ("0", "12345"):
-        out = subprocess.run([sys.executable, "-c", code], env={"PYTHONHASHSEED": hs, "PATH": "/usr/bin:/bin"},
+        out = subprocess.run([sys.executable, "-c", code], env={"PYTHONHASHSEED": hs, "PATH": "/usr/bin:/bin", "PYTHONDONTWRITEBYTECODE": "1",
+                                  "PYTHONPYCACHEPREFIX": os.environ.get("PYTHONPYCACHEPREFIX", "/nonexistent-pyc")},
                              capture_output=True, text=True, timeout=60).stdout.strip()
         ctx.count("fresh-interpreter")
         if out != here:
